@@ -58,6 +58,9 @@ func token(o fsop) string {
 		if o.Kind == "write" {
 			return "SfmWriteInPlace " + s + " " + numBlocks(o.Data)
 		}
+		if o.Kind == "unlink" {
+			return "SfmUnlink " + s
+		}
 		return "Other"
 	case strings.HasSuffix(f, ".bsu"):
 		if o.Kind == "write" || o.Kind == "pwrite" {
@@ -144,16 +147,8 @@ func observedHistory(h history, toks []string) string {
 			prot = append(prot, t)
 		}
 	}
-	for _, st := range h.Steps {
-		if st.Kind == "rotate" {
-			items = append(items, "Rotate")
-			// skip the rotation's tokens (sfm rewrites + segmeta line)
-			for i < len(prot) && !strings.HasPrefix(prot[i], "ColWrite") {
-				i++
-			}
-			continue
-		}
-		m, n := 0, 0
+	// one buffer flush: ColWrite* BsuAppend SstWrite* SstRename, the .sfm calls, PqmrWrite*
+	flush := func() (m, n, p int) {
 		for i < len(prot) && strings.HasPrefix(prot[i], "ColWrite") {
 			m++
 			i++
@@ -175,15 +170,36 @@ func observedHistory(h history, toks []string) string {
 				break
 			}
 		}
-		items = append(items, fmt.Sprintf("Flush %d %d", m, n))
 		// persistent-query match results appended after the .sfm (FlushPqmr)
-		p := 0
 		for i < len(prot) && strings.HasPrefix(prot[i], "PqmrWrite") {
 			p++
 			i++
 		}
-		if p > 0 {
-			items = append(items, fmt.Sprintf("PqWrites %d", p))
+		return
+	}
+	// the rotation's tokens (sfm rewrites + segmeta line)
+	rotation := func() {
+		for i < len(prot) && !strings.HasPrefix(prot[i], "ColWrite") {
+			i++
+		}
+	}
+	for _, st := range h.Steps {
+		switch {
+		case st.Kind == "rotate" || (st.Kind == "shutdown" && st.N == 0):
+			// a forced flush with an empty buffer is AppendWipToSegfile going straight to the rotation
+			items = append(items, "Rotate")
+			rotation()
+		case st.Kind == "shutdown":
+			// forced flush: the buffer flush and the rotation in the same call
+			m, n, p := flush()
+			items = append(items, fmt.Sprintf("ForcedFlush %d %d %d", m, n, p))
+			rotation()
+		default:
+			m, n, p := flush()
+			items = append(items, fmt.Sprintf("Flush %d %d", m, n))
+			if p > 0 {
+				items = append(items, fmt.Sprintf("PqWrites %d", p))
+			}
 		}
 	}
 	return vhlib.CoqList(items)
@@ -206,7 +222,11 @@ func run(timeout time.Duration, name string, args ...string) (int, string) {
 	return 0, string(out)
 }
 
-func genHistory(r *vhlib.Rng) history {
+// shutdownAfterFlush: the history ends with a graceful shutdown that finds events in the buffer of a segment which already
+// has a completed flush (the forced rotation starts from a segment whose .sfm is the one of the PREVIOUS flush);
+// otherwise the end is drawn: open segment | rotation | shutdown with 0..3 buffered events (after a rotation: a segment
+// whose only flush is the shutdown flush)
+func genHistory(r *vhlib.Rng, shutdownAfterFlush bool) history {
 	h := history{Index: "idx"}
 	n := r.Range(3, 6)
 	for i := 0; i < n; i++ {
@@ -215,8 +235,15 @@ func genHistory(r *vhlib.Rng) history {
 		}
 		h.Steps = append(h.Steps, step{Kind: "flush", N: r.Range(1, 3)})
 	}
+	if shutdownAfterFlush {
+		h.Steps = append(h.Steps, step{Kind: "shutdown", N: r.Range(1, 3)})
+		return h
+	}
 	if r.Chance(40) {
 		h.Steps = append(h.Steps, step{Kind: "rotate"})
+	}
+	if r.Chance(50) {
+		h.Steps = append(h.Steps, step{Kind: "shutdown", N: r.Range(0, 3)})
 	}
 	return h
 }
@@ -236,10 +263,23 @@ func genPQHistory(r *vhlib.Rng, thorough bool) history {
 			if s == 0 {
 				nf = r.Range(2, 3)
 			}
-			for i := 0; i < nf; i++ {
-				h.Steps = append(h.Steps, step{Kind: "flush", N: r.Range(1, 4)})
+			// the last segment ends with a graceful shutdown whose buffer holds its last block (quick: always; thorough:
+			// drawn against an open segment / a rotation)
+			end := 0
+			if s == nseg-1 {
+				end = 1
+				if thorough {
+					end = r.Intn(3)
+				}
 			}
-			if s < nseg-1 || r.Chance(30) {
+			for i := 0; i < nf; i++ {
+				if end == 1 && i == nf-1 {
+					h.Steps = append(h.Steps, step{Kind: "shutdown", N: r.Range(1, 4)})
+				} else {
+					h.Steps = append(h.Steps, step{Kind: "flush", N: r.Range(1, 4)})
+				}
+			}
+			if s < nseg-1 || end == 2 {
 				h.Steps = append(h.Steps, step{Kind: "rotate"})
 			}
 		}
@@ -280,7 +320,8 @@ func driverMain() {
 	cfg := vhlib.ParseFlags()
 	sum := vhlib.NewSummary("one case = one crash point: the file-system state after the first k completed system calls of a traced ingest/flush/rotate history (strace of the real worker, replayed into a fresh directory at the same path), followed by a real restart + `*` + `stats count` + further ingest; " +
 		"after every restart also a filter query (`w=w<r>`: exactly the visible events that match); every third history is a persistent-query history (the filter asked on the empty index before the first event: every flush appends the block's match bits to <segkey>/pqmr/<pqid>.pqmr, consecutive blocks of a segment have different match sets; in every crash state each pqmr file is read by the real ReadPqmr and compared with what the traced writer had appended, and the query's per-block answer with the searcher model); " +
-		"quick: stratified sample of k (every protocol token boundary of sfm/bsu/sst/segmeta + random; persistent-query history: every boundary of the pqmr appends + 9 others), thorough: every k; non-trivial = at least one flush had started; distinct by (history, k)")
+		"histories end with an open segment, a rotation or a graceful shutdown (ForcedFlushToSegfile with 0..n events in the buffer: buffer flush + rotation in one call; the RotateSegment hook of siglens marks the return of the buffer flush); " +
+		"quick: stratified sample of k (every protocol token boundary of sfm/bsu/sst/segmeta + random; every call boundary from the return of the shutdown's buffer flush to the rename of the final .sfm; persistent-query history: every boundary of the pqmr appends + 7 others), thorough: every k; non-trivial = at least one flush had started; distinct by (history, k)")
 	r := vhlib.NewRng(cfg.Seed)
 	self, _ := os.Executable()
 	nh := 3
@@ -289,12 +330,13 @@ func driverMain() {
 	}
 	caseShard := 0
 	for hi := 0; hi < nh; hi++ {
-		h := genHistory(r.Fork())
+		// quick: h0 = segment whose ONLY flush is the shutdown flush, h1 = shutdown flush after earlier flushes of the segment
+		h := genHistory(r.Fork(), hi == 1)
 		if v := os.Getenv("C07_ONLY_H"); v != "" && v != strconv.Itoa(hi) {
 			continue
 		}
 		if hi == 0 {
-			h = history{Index: "idx", Steps: []step{{"flush", 2}, {"flush", 1}, {"rotate", 0}, {"flush", 2}}}
+			h = history{Index: "idx", Steps: []step{{"flush", 2}, {"flush", 1}, {"rotate", 0}, {"shutdown", 2}}}
 		}
 		if hi%2 == 1 {
 			h.Desc = true // late-arriving data: every flush holds OLDER timestamps than the one before
@@ -349,7 +391,7 @@ func driverMain() {
 				ks = append(ks, k)
 			}
 		} else {
-			budget := 36
+			budget := 34 // crash points of a history (the forced-rotation window included)
 			must := map[int]bool{} // the window of the persistent-query appends: every boundary is kept
 			for i, t := range toks {
 				if strings.HasPrefix(t, "PqmrWrite") {
@@ -358,7 +400,31 @@ func driverMain() {
 				}
 			}
 			if h.PQ {
-				budget = 9 + len(must)
+				budget = 7 + len(must)
+			}
+			// the window a forced rotation opens: from the return of the shutdown's buffer flush (marker written by the
+			// RotateSegment hook) to the rename of the final .sfm, every boundary of a protocol call is kept
+			for i, o := range ops {
+				if !(strings.HasSuffix(o.Path, "/progress.log") && o.Kind == "write" && strings.HasPrefix(string(o.Data), "FLUSHED")) {
+					continue
+				}
+				must[i+1] = true
+				if h.PQ {
+					budget++
+				}
+				for j := i + 1; j < len(ops); j++ {
+					if strings.HasPrefix(toks[j], "Sfm") {
+						for _, b := range []int{j, j + 1} {
+							if h.PQ && !must[b] {
+								budget++
+							}
+							must[b] = true
+						}
+					}
+					if strings.HasPrefix(toks[j], "SfmRename") {
+						break
+					}
+				}
 			}
 			pick := map[int]bool{0: true, len(ops): true}
 			for i, t := range sufToks {
@@ -511,6 +577,17 @@ func blocksOf(h history) []blk {
 				seg++
 				b = 0
 			}
+		case "shutdown":
+			// the buffered events become the last block of the segment, which is rotated in the same call
+			if st.N > 0 {
+				out = append(out, blk{seg, b, next, st.N})
+				next += st.N
+				b++
+			}
+			if b > 0 {
+				seg++
+				b = 0
+			}
 		}
 	}
 	return out
@@ -571,10 +648,15 @@ func recoverAt(self, run1, hf string, ops []fsop, k int, sum *vhlib.Summary, h h
 	// which steps had completed (markers are written by the worker after each step returns)
 	done := -1
 	started := false
+	flushed := map[int]bool{} // shutdown steps whose buffer flush had returned (the forced rotation had begun)
 	if pb, err := os.ReadFile(filepath.Join(run1, "progress.log")); err == nil {
 		for _, l := range strings.Split(string(pb), "\n") {
 			if strings.HasPrefix(l, "DONE ") {
 				done, _ = strconv.Atoi(strings.TrimPrefix(l, "DONE "))
+			}
+			if strings.HasPrefix(l, "FLUSHED ") {
+				i, _ := strconv.Atoi(strings.TrimPrefix(l, "FLUSHED "))
+				flushed[i] = true
 			}
 			if l == "START" {
 				started = true
@@ -599,6 +681,20 @@ func recoverAt(self, run1, hf string, ops []fsop, k int, sum *vhlib.Summary, h h
 	sum.Eval(fmt.Sprintf("%s/%d", hf, k), started)
 	sum.Count("crash_points")
 	c := map[string]interface{}{"history": h, "crash_after_syscalls": k, "steps_completed": done + 1}
+	// a step's buffer flush had completed before the crash: the step returned, or (shutdown step) its flush returned and
+	// the crash hit the forced rotation that follows it in the same call
+	flushCompleted := func(i int) bool { return i <= done || flushed[i] }
+	// the crash hit a buffer flush that had not returned (known window of the statistics: block summary / .sst of the flush
+	// in progress are on disk, its .sfm is not)
+	inFlush := started && done+1 < len(h.Steps) && h.Steps[done+1].flushes() && !flushed[done+1]
+	during := "" // class suffix: the crash hit a forced rotation whose buffer flush had completed
+	for i := range flushed {
+		if i > done {
+			during = "_during_forced_rotation"
+			c["crash_inside_forced_rotation_of_step"] = i
+			sum.Count("crash_points_inside_forced_rotation(buffer flush of the shutdown completed)")
+		}
+	}
 	if rc != 0 || !rec.StartupOK {
 		sum.Fail("startup_fails_after_crash", fmt.Sprintf("restart after crash point %d: rc=%d err=%q %s", k, rc, rec.Err, tail(out)), c)
 		return nil, true
@@ -607,15 +703,15 @@ func recoverAt(self, run1, hf string, ops []fsop, k int, sum *vhlib.Summary, h h
 	var completed, inprog []int
 	next := 1
 	for i, st := range h.Steps {
-		if st.Kind != "flush" {
+		if !st.flushes() {
 			continue
 		}
 		for j := 0; j < st.N; j++ {
-			if i <= done {
+			if flushCompleted(i) {
 				completed = append(completed, next+j)
 			}
 		}
-		if i > done && inprog == nil && started {
+		if !flushCompleted(i) && inprog == nil && started {
 			// the first not-yet-completed flush step may be in progress (rotate steps in between do not add events)
 			for j := 0; j < st.N; j++ {
 				inprog = append(inprog, next+j)
@@ -641,7 +737,7 @@ func recoverAt(self, run1, hf string, ops []fsop, k int, sum *vhlib.Summary, h h
 	}
 	for _, id := range completed {
 		if got[id] == 0 {
-			sum.Fail("completed_flush_lost_after_crash", fmt.Sprintf("crash point %d (%d steps completed): event %d of a completed flush is not searchable after restart; visible=%v", k, done+1, id, rec.IDs), c)
+			sum.Fail("completed_flush_lost_after_crash"+during, fmt.Sprintf("crash point %d (%d steps completed%s): event %d of a completed flush is not searchable after restart; visible=%v", k, done+1, map[bool]string{false: "", true: "; the buffer flush of the graceful shutdown had returned, the crash hit the rotation that follows it"}[during != ""], id, rec.IDs), c)
 			break
 		}
 	}
@@ -669,7 +765,7 @@ func recoverAt(self, run1, hf string, ops []fsop, k int, sum *vhlib.Summary, h h
 	{
 		next := 1
 		for i, st := range h.Steps {
-			if st.Kind != "flush" {
+			if !st.flushes() {
 				continue
 			}
 			allVisible := true
@@ -683,12 +779,12 @@ func recoverAt(self, run1, hf string, ops []fsop, k int, sum *vhlib.Summary, h h
 				}
 				for j := 0; j < st.N; j++ {
 					if !have[next+j] {
-						if i > done {
+						if !flushCompleted(i) {
 							// the flush in progress: its block summary is appended, the .sfm still records the previous time range
 							sum.Fail("in_progress_block_outside_recorded_time_range", fmt.Sprintf("crash point %d: event %d of the flush in progress is returned by the unbounded `*` but not by `*` bounded to its own time range (the .sfm still holds the previous earliest/latest)", k, next+j), c)
 							break
 						}
-						sum.Fail("recovered_event_missing_from_time_bounded_query", fmt.Sprintf("crash point %d: event %d is returned by the unbounded `*` after restart but not by `*` bounded to the time range of its own flush (got %v)", k, next+j, rec.Bounded[i]), c)
+						sum.Fail("recovered_event_missing_from_time_bounded_query"+during, fmt.Sprintf("crash point %d: event %d is returned by the unbounded `*` after restart but not by `*` bounded to the time range of its own flush (got %v)", k, next+j, rec.Bounded[i]), c)
 						break
 					}
 				}
@@ -757,15 +853,32 @@ func recoverAt(self, run1, hf string, ops []fsop, k int, sum *vhlib.Summary, h h
 	}
 	if rec.CountErr != "" {
 		sum.Fail("query_error_after_crash", fmt.Sprintf("crash point %d: stats count error %q", k, rec.CountErr), c)
+	} else if int(rec.Count) != len(rec.IDs) && !(rec.Count <= 0 && len(rec.IDs) == 0) && !inFlush {
+		// no buffer flush was in progress when the crash hit: the files hold completed flushes only
+		sum.Fail("segment_stats_disagree_with_completed_flushes_after_crash"+during, fmt.Sprintf("crash point %d: `* | stats count` = %d but match-all returns %d events, all of completed flushes", k, rec.Count, len(rec.IDs)), c)
 	} else if int(rec.Count) != len(rec.IDs) && !(rec.Count <= 0 && len(rec.IDs) == 0) {
 		sum.Fail("stale_segment_stats_after_crash", fmt.Sprintf("crash point %d: `* | stats count` = %d but match-all returns %d events", k, rec.Count, len(rec.IDs)), c)
+	}
+	// the same for a statistic over the events' content: sum(n) with n = 7*id
+	if rec.CountErr == "" && rec.SumN >= 0 {
+		want := int64(0)
+		for _, id := range rec.IDs {
+			want += int64(id) * 7
+		}
+		if rec.SumN != want {
+			if !inFlush {
+				sum.Fail("segment_stats_sum_disagrees_with_completed_flushes_after_crash"+during, fmt.Sprintf("crash point %d: `* | stats sum(n)` = %d but the events returned by match-all (all of completed flushes) sum to %d", k, rec.SumN, want), c)
+			} else {
+				sum.Fail("stale_segment_stats_after_crash", fmt.Sprintf("crash point %d: `* | stats sum(n)` = %d but the events returned by match-all sum to %d (a flush is in progress)", k, rec.SumN, want), c)
+			}
+		}
 	}
 	if os.Getenv("C07_TABLE") != "" {
 		t := ""
 		if k > 0 {
 			t = token(ops[k-1])
 		}
-		fmt.Fprintf(os.Stderr, "k=%d last=%q done=%d ids=%v count=%d\n", k, t, done+1, rec.IDs, rec.Count)
+		fmt.Fprintf(os.Stderr, "k=%d last=%q done=%d ids=%v count=%d sum(n)=%d\n", k, t, done+1, rec.IDs, rec.Count, rec.SumN)
 	}
 	// later ingestion must not overwrite recovered data
 	if rec.AfterErr != "" {
